@@ -23,7 +23,7 @@ ids = sorted(d for d in os.listdir(os.path.join(VERIF, 'seeded')) if os.path.exi
 def one(sid):
     m = json.load(open(os.path.join(VERIF, 'seeded', sid, 'meta.json')))
     pids = [p for p, v in m.get('detected_by', {}).items() if v.get('exit') == 1] or [m['property']]
-    want = 0 if (m.get('not_claimed') or m.get('out_of_scope')) else 1
+    want = 0 if (m.get('not_claimed') or m.get('out_of_scope') or m.get('still_missed')) else 1
     res = {}
     for pid in pids[:1] if want else [m['property']]:
         code, out = run(pid, os.path.join(VERIF, 'seeded', sid, 'patch.diff'))
